@@ -1,6 +1,10 @@
 package main
 
-import "pdverif/internal/goast"
+import (
+	"fmt"
+
+	"pdverif/internal/goast"
+)
 
 func init() { gens["C06"] = genC06 }
 
@@ -39,7 +43,17 @@ func genC06(repo string) (string, error) {
 	if err := o.constZ(rs, "defaultBatchSize", "defaultBatchSize"); err != nil {
 		return "", err
 	}
-	for _, x := range []struct{ recv, name string }{{"RegionStorage", "SaveRegion"}, {"RegionStorage", "FlushRegion"}, {"RegionStorage", "flush"}, {"", "deleteRegion"}} {
+	for _, x := range []struct{ recv, name string }{{"RegionStorage", "SaveRegion"}, {"RegionStorage", "FlushRegion"}, {"RegionStorage", "flush"}, {"RegionStorage", "Remove"}, {"", "deleteRegion"}} {
+		if x.name == "Remove" {
+			// the method exists since the repair of the write-back batch; without it kv.Base.Remove on the region storage
+			// is the embedded LeveldbKV.Remove: emit that fact as the body, so that the tie in proof/C06_Skel.v fails
+			// and the cases are still replayed against the model
+			if _, err := rs.Func(x.recv, x.name); err != nil {
+				fmt.Fprintf(&o.sb, "Definition src_rs_Remove : string := (* %s: no (RegionStorage).Remove *)\n  %s.\n", rs.Path,
+					goast.Q("<absent: kv.Base.Remove on the region storage is the embedded LeveldbKV.Remove, the batch is not consulted>"))
+				continue
+			}
+		}
 		if err := o.srcDef(rs, x.recv, x.name, "src_rs_"+x.name); err != nil {
 			return "", err
 		}
